@@ -62,6 +62,25 @@ class GenMonitor:
         self._orig = f._generate_log_return
         f._generate_log_return = self.generate_log_return
         self.gens = []          # one record per _generate_next: until, ids, logret, exp args, exp values
+        # the configured parameters, recorded from the calls of the public setters (not read back from the object)
+        self.want_vol = dict(f.volatilities)
+        self.want_drift = dict(f.drifts)
+        self.want_corr = {frozenset(k): v for k, v in f.correlation.items()}
+        mon = self
+
+        def wrap(name, record):
+            orig = getattr(f, name)
+
+            def call(*a, **k):
+                orig(*a, **k)           # (a refused call raises before anything is recorded)
+                record(*a, **k)
+            setattr(f, name, call)
+        wrap("change_volatility", lambda market_id, volatility, time=0: mon.want_vol.__setitem__(market_id, volatility))
+        wrap("change_drift", lambda market_id, drift, time=0: mon.want_drift.__setitem__(market_id, drift))
+        wrap("set_correlation", lambda market_id1, market_id2, corr, time=0:
+             mon.want_corr.__setitem__(frozenset((market_id1, market_id2)), corr))
+        wrap("remove_correlation", lambda market_id1, market_id2, time=0:
+             mon.want_corr.pop(frozenset((market_id1, market_id2)), None))
 
     def restore(self):
         FM.np, FM.cholesky = self.saved
@@ -91,12 +110,7 @@ class GenMonitor:
         return a
 
     def corr(self, a, b):
-        c = self.f.correlation
-        if (a, b) in c:
-            return c[(a, b)]
-        if (b, a) in c:
-            return c[(b, a)]
-        return 0
+        return self.want_corr.get(frozenset((a, b)), 0)
 
     def generate_log_return(self, generate_target_ids, length):
         g, f = self.g, self.f
@@ -104,7 +118,7 @@ class GenMonitor:
         out = self._orig(generate_target_ids=generate_target_ids, length=length)
         self.n_gen += 1
         ids = list(generate_target_ids)
-        chol_ids = [x for x in ids if bool(f.volatilities[x] != 0.0)]
+        chol_ids = [x for x in ids if bool(self.want_vol[x] != 0.0)]
         g.require(out.shape == (len(ids), length), "C12.log-return-shape")
         if chol_ids:
             g.require(len(self.chol_calls) == nc + 1 and len(self.z_calls) == nz + 1, "C12.sampling-calls")
@@ -116,7 +130,7 @@ class GenMonitor:
             for a, xa in enumerate(chol_ids):
                 for b, xb in enumerate(chol_ids):
                     c = 1 if xa == xb else self.corr(xa, xb)
-                    g.require(cov[a, b] == f.volatilities[xa] * c * f.volatilities[xb], "C12.covariance",
+                    g.require(cov[a, b] == self.want_vol[xa] * c * self.want_vol[xb], "C12.covariance",
                               f"covariance entry for markets ({xa},{xb}) is not vol x corr x vol")
                     if xa != xb and not (isinstance(c, int) and c == 0):
                         g.note("correlated-pair")
@@ -124,12 +138,12 @@ class GenMonitor:
             for t in range(length):
                 if x in chol_ids:
                     i = chol_ids.index(x)
-                    want = f.drifts[x] + sum(L[i, k] * z[k, t] for k in range(len(chol_ids)))
+                    want = self.want_drift[x] + sum(L[i, k] * z[k, t] for k in range(len(chol_ids)))
                     g.require(out[r, t] == want, "C12.log-return!=drift+L.z",
                               f"log-return of market {x} is not drift + (Cholesky factor x normal draws)")
                 else:
                     g.note("zero-vol-row")
-                    g.require(out[r, t] == f.drifts[x], "C12.zero-vol-log-return!=drift")
+                    g.require(out[r, t] == self.want_drift[x], "C12.zero-vol-log-return!=drift")
         self.gens.append({"until": f._generated_until, "ids": ids, "logret": out, "n_exp": len(self.exp_calls)})
         return out
 
@@ -202,7 +216,8 @@ class Paths(Harness):
 
     def cases(self, tier):
         out = []
-        kinds = ["none", "drift", "vol", "vol-to-zero", "vol-from-zero", "set-corr", "remove-corr", "shock"]
+        kinds = ["none", "drift", "vol", "vol-to-zero", "vol-from-zero", "set-corr", "remove-corr", "shock",
+                 "set-corr-rev", "remove-after-rev"]
         for chunk in (2, 3):
             for kind in kinds:
                 for t in ((2,) if kind == "none" else (1, 2, 3, 4)):
@@ -235,8 +250,11 @@ class Paths(Harness):
         f.add_market(0, init[0], g.real("mu0", -1, 1), vol0)
         f.add_market(1, init[1], g.real("mu1", -1, 1), vol1)
         f.add_market(2, 50.0, g.real("mu2", -1, 1), 0.0)          # a deterministic market
-        if case["kind"] == "remove-corr":
+        if case["kind"] in ("remove-corr", "set-corr-rev", "remove-after-rev"):
             f.set_correlation(0, 1, g.real("rho", -1, 1, lo_strict=True, hi_strict=True))
+        if case["kind"] == "remove-after-rev":
+            # the pair named in both orientations before it is removed
+            f.set_correlation(1, 0, g.real("rho_b", -1, 1, lo_strict=True, hi_strict=True))
         mon = GenMonitor(g, f)
         try:
             t = case["t"]
@@ -258,6 +276,12 @@ class Paths(Harness):
                 f.set_correlation(0, 1, g.real("rho", -1, 1, lo_strict=True, hi_strict=True), time=t)
             elif case["kind"] == "remove-corr":
                 f.remove_correlation(1, 0, time=t)
+            elif case["kind"] == "set-corr-rev":
+                # the pair is updated naming it in the other orientation, then once more in the first one
+                f.set_correlation(1, 0, g.real("rho_r", -1, 1, lo_strict=True, hi_strict=True), time=t)
+                f.set_correlation(0, 1, g.real("rho_s", -1, 1, lo_strict=True, hi_strict=True), time=t)
+            elif case["kind"] == "remove-after-rev":
+                f.remove_correlation(0, 1, time=t)
             elif case["kind"] == "shock":
                 class _S:
                     fundamentals = f
@@ -332,7 +356,7 @@ class Paths(Harness):
     def check_zero_vol(self, g, f, mon, allp, case):
         """market 2 has zero volatility throughout: value = regeneration level x exp(drift x steps)."""
         g.note("zero-vol-path")
-        mu2 = f.drifts[2]
+        mu2 = mon.want_drift[2]
         for rec in mon.gens:
             r = rec["ids"].index(2)
             for j in range(rec["logret"].shape[1]):
